@@ -16,6 +16,9 @@ SYNTH_SIZES = {
 }
 SYNTH_PROPS = ['C01', 'C02', 'C03', 'C04', 'C05', 'C06', 'C07', 'C08', 'C09', 'C13', 'C14', 'C15', 'C16', 'C19']
 
+# scenario files that start from poked (state-injected) worlds: compared, not monitored
+DIFF_ONLY_SCENARIOS = ['coverage_gaps.ops']
+
 ENV_ASSUME = [
     'environment model of DESIGN.md section 7 (atomic transactions, depth-first dispatch, bank rejects zero/overdraft sends, exact staking accounting)',
 ]
@@ -37,7 +40,7 @@ PROPS = {
                   'C17_dispatch_conserves', 'C17_dispatch_succeeds', 'C17_rate_le_one_init',
                   'C17_rate_le_one_step', 'C17_no_zero_transfer', 'C17_known_F2_witness'],
         kernels=['swapinfo'],
-        scenarios=['basic.ops'],
+        scenarios=['basic.ops', 'branches.ops'],
         profiles=['rewards'],
         keys=['m bank disp', 'm wasm disp', 'm wasm hub disp', 'dp.', 'bank disp', 'bank keeper'],
         ops=[r'^disp ', r'^inst_disp', r'^hub \S+ updateglobal'],
@@ -95,7 +98,7 @@ E_ENV = ['operating envelope of DESIGN.md section 4 (E1 magnitudes <= 1e18, E2 t
 
 def _hub(pid, theorems, profiles, kernels=(), extra_keys=(), assumes=()):
     return dict(props_file='Props/%s.v' % pid, theorems=list(theorems), kernels=list(kernels),
-                scenarios=['basic.ops', 'findings.ops', 'branches.ops', 'overflow.ops'], profiles=list(profiles), keys=HUBKEYS + list(extra_keys),
+                scenarios=['basic.ops', 'findings.ops', 'branches.ops', 'overflow.ops', 'backlog.ops', 'coverage_gaps.ops'], profiles=list(profiles), keys=HUBKEYS + list(extra_keys),
                 ops=HUBOPS, assumes=E_ENV + list(assumes))
 
 
